@@ -84,7 +84,7 @@ WarmAt(I) == IF IsFast(I.kind) THEN FastLo(I.degree) + 1 ELSE 2
 Snap(I) == [cur |-> I.cur, tgt |-> I.tgt, lastTau |-> I.lastTau, warm |-> I.warm,
             totIn |-> I.totIn, totOut |-> I.totOut, g |-> I.g, chunk |-> I.chunk,
             const |-> I.const, flushed |-> I.flushed, prevEndT |-> I.prevEndT,
-            best |-> I.best, supplied |-> I.supplied, padded |-> I.padded]
+            best |-> I.best, supplied |-> I.supplied, padded |-> I.padded, steady |-> I.steady]
 
 NewInst(n) ==
   [alive |-> TRUE, kind |-> n.kind, T |-> n.T, ch |-> n.ch,
@@ -93,6 +93,9 @@ NewInst(n) ==
    chunkMax |-> n.chunk, chunk |-> n.chunk, fs_in |-> n.fs_in, fs_out |-> n.fs_out,
    sub |-> n.sub, orig |-> n.orig, maxrel |-> n.maxrel,
    cur |-> n.orig.t, tgt |-> n.orig.t, prevEndT |-> n.orig.t, const |-> TRUE,
+   \* the ratio in force since the start of the stream (construction/reset), as p/q when known:
+   \* a ratio set before the first frame is processed starts a stream at that constant ratio
+   steady |-> TRUE, rp |-> n.orig.p, rq |-> n.orig.q,
    totIn |-> 0, totOut |-> 0, lastTau |-> <<0, 0>>, warm |-> FALSE, flushed |-> FALSE,
    best |-> <<0, 0>>,          \* largest |output| so far: <<global output index, size>> (impulse runs)
    minInMax |-> n.post.in_max,   \* smallest input_frames_max / output_frames_max ever advertised: a buffer
@@ -102,7 +105,8 @@ NewInst(n) ==
    g |-> n.post,
    pre |-> [cur |-> n.orig.t, tgt |-> n.orig.t, lastTau |-> <<0, 0>>, warm |-> FALSE,
             totIn |-> 0, totOut |-> 0, g |-> n.post, chunk |-> n.chunk, const |-> TRUE,
-            flushed |-> FALSE, prevEndT |-> n.orig.t, best |-> <<0, 0>>, supplied |-> 0, padded |-> 0]]
+            flushed |-> FALSE, prevEndT |-> n.orig.t, best |-> <<0, 0>>, supplied |-> 0, padded |-> 0,
+            steady |-> TRUE]]
 
 IsProc(ev) == ev.ev \in {"process", "partial"}
 ProcOk(ev) == IsProc(ev) /\ ev.res = "ok"
@@ -130,10 +134,15 @@ AfterProcess(I, ev) ==
 
 AfterSetRatio(I, ev) ==
   IF ev.res # "ok" THEN [I EXCEPT !.pre = Snap(I), !.g = ev.post]
-  ELSE [I EXCEPT !.pre = Snap(I), !.g = ev.post,
+  ELSE LET fresh == I.totIn = 0 /\ I.totOut = 0 /\ I.steady
+           same == ev.eff.w = I.orig.w /\ I.rp = I.orig.p /\ I.rq = I.orig.q
+       IN [I EXCEPT !.pre = Snap(I), !.g = ev.post,
           !.tgt = ev.eff.t,
           !.cur = IF ev.ramp THEN @ ELSE ev.eff.t,
-          !.const = @ /\ ev.eff.w = I.orig.w]
+          !.const = @ /\ ev.eff.w = I.orig.w,
+          !.steady = IF same THEN @ ELSE (fresh /\ ~ev.ramp),
+          !.rp = IF same THEN @ ELSE ev.eff.p,
+          !.rq = IF same THEN @ ELSE ev.eff.q]
 
 AfterSetChunk(I, ev) ==
   IF ev.res # "ok" THEN [I EXCEPT !.pre = Snap(I), !.g = ev.post]
@@ -144,7 +153,8 @@ AfterReset(I, ev) ==
   ELSE [I EXCEPT !.pre = Snap(I), !.g = ev.post, !.cur = I.orig.t, !.tgt = I.orig.t,
           !.prevEndT = I.orig.t, !.const = TRUE, !.totIn = 0, !.totOut = 0,
           !.lastTau = <<0, 0>>, !.warm = FALSE, !.flushed = FALSE, !.chunk = I.chunkMax,
-          !.best = <<0, 0>>, !.supplied = 0, !.padded = 0]
+          !.best = <<0, 0>>, !.supplied = 0, !.padded = 0,
+          !.steady = TRUE, !.rp = I.orig.p, !.rq = I.orig.q]
 
 AfterOther(I, ev) == [I EXCEPT !.pre = Snap(I), !.g = ev.post]
 \* every binding also records the smallest maxima advertised so far
@@ -269,9 +279,9 @@ C06_Supplied(I, ev) ==
 (* C07  frame accounting without drift                                     *)
 (***************************************************************************)
 C07_NoDrift(I, ev) ==
-  (IsAsync(I.kind) /\ I.const /\ I.pre.const /\ I.orig.p > 0 /\ IsProc(ev)) =>
-    LET p == I.orig.p
-        q == I.orig.q
+  (IsAsync(I.kind) /\ I.steady /\ I.pre.steady /\ I.rp > 0 /\ IsProc(ev)) =>
+    LET p == I.rp
+        q == I.rq
     IN Abs(I.totOut * q - I.totIn * p) <= p * (I.L + 3) + 4 * q
 
 FftA(I) == I.fs_in \div GCD(I.fs_in, I.fs_out)
@@ -406,18 +416,18 @@ DelayOk(j, tau, delay, p, q) ==
   IN -b <= v /\ v <= b
 
 C14_Delay(I, ev) ==
-  (HasTaus(I, ev) /\ I.const /\ I.pre.const /\ I.orig.p > 0) =>
+  (HasTaus(I, ev) /\ I.steady /\ I.pre.steady /\ I.rp > 0) =>
     \A k \in 1..Len(ev.taus) :
       (ev.taus[k][1] >= WarmAt(I) + 1) =>
-        DelayOk(I.pre.totOut + k - 1, ev.taus[k], ev.pre.delay, I.orig.p, I.orig.q)
+        DelayOk(I.pre.totOut + k - 1, ev.taus[k], ev.pre.delay, I.rp, I.rq)
 
 \* Kernels without an instant probe (real sinc kernels, FFT): one impulse at input frame n0; the
 \* largest |output| so far must sit at n0*ratio + delay once the stream has passed that point.
 C14_Peak(I, ev) ==
-  (ProcOk(ev) /\ I.signal = "impulse" /\ Len(I.imp) = 1 /\ I.const
-     /\ (IsFft(I.kind) \/ I.orig.p > 0)) =>
-    LET p == IF IsFft(I.kind) THEN FftB(I) ELSE I.orig.p
-        q == IF IsFft(I.kind) THEN FftA(I) ELSE I.orig.q
+  (ProcOk(ev) /\ I.signal = "impulse" /\ Len(I.imp) = 1 /\ I.steady
+     /\ (IsFft(I.kind) \/ I.rp > 0)) =>
+    LET p == IF IsFft(I.kind) THEN FftB(I) ELSE I.rp
+        q == IF IsFft(I.kind) THEN FftA(I) ELSE I.rq
         expect == I.imp[1] * p + ev.pre.delay * q       \* times q
         tol == Max(p, q) + q
     IN (I.totOut * q > expect + tol + q /\ I.best[2] > 0) =>
